@@ -392,43 +392,58 @@ func (o *oracleBuilder) shuffleEntries(seed [32]byte, rounds uint64, nMax int) {
 	}
 }
 
-const minBlocks = 2
-const maxBlocks = 400
+// ---- table sizing ----------------------------------------------------------------------------------------
+// How many sampling blocks hash(seed + uint_to_bytes(block)) the specification's candidate loop will read is
+// only known by running that loop.  The harness runs a plain re-statement of it with crypto/sha256 for ONE purpose:
+// deciding how many blocks to put into the oracle table (plus one block of slack).  It decides nothing else: if it
+// were wrong the table would be too small and TLC would stop with a missing pre-image (infrastructure error, exit 2),
+// or too large (harmless).  The verdict comes from Committees.tla alone.
+const maxBlocks = 2000
 
-// samplingBlocks adds hash(seed + uint_to_bytes(block)) for as many blocks as any run of the specification's
-// candidate loop can need: the loop accepts at the latest at a byte that the poorest active validator accepts
-// (byte * MAX <= minEff * 255), so blocks are added until `need` such bytes have been seen (+1 block of slack).
-// This only sizes the table; if it were too small TLC would fail on a missing pre-image (infrastructure error).
-func (o *oracleBuilder) samplingBlocks(seed [32]byte, p Preset, minEff uint64, need uint64) {
-	seen := uint64(0)
-	extra := 0
-	for b := uint64(0); b < maxBlocks; b++ {
-		d := o.sha(cat(seed[:], u64(b)))
-		for _, x := range d {
-			if uint64(x)*p.MAX_EFFECTIVE_BALANCE <= minEff*255 {
-				seen++
-			}
+func sizingShuffled(index, n uint64, seed [32]byte, rounds uint64) uint64 {
+	for r := uint64(0); r < rounds; r++ {
+		h := sha256.Sum256(cat(seed[:], []byte{byte(r)}))
+		pivot := binary.LittleEndian.Uint64(h[:8]) % n
+		flip := (pivot + n - index) % n
+		pos := index
+		if flip > pos {
+			pos = flip
 		}
-		if seen >= need && b+1 >= minBlocks {
-			extra++
-			if extra > 1 {
-				return
-			}
+		src := sha256.Sum256(cat(seed[:], []byte{byte(r)}, u32(uint32(pos/256))))
+		if (src[(pos%256)/8]>>(pos%8))&1 == 1 {
+			index = flip
 		}
 	}
+	return index
 }
 
-func minActiveEff(vals [][]int, e uint64) uint64 {
-	m, any := uint64(0), false
-	for _, v := range vals {
+func activeAt(vals [][]int, e uint64) []int {
+	out := []int{}
+	for i, v := range vals {
 		if uint64(v[0]) <= e && e < uint64(v[1]) {
-			if !any || uint64(v[2]) < m {
-				m = uint64(v[2])
-			}
-			any = true
+			out = append(out, i)
 		}
 	}
-	return m
+	return out
+}
+
+func (o *oracleBuilder) samplingBlocks(seed [32]byte, p Preset, vals [][]int, e uint64, need uint64) {
+	active := activeAt(vals, e)
+	blocks := uint64(1)
+	if len(active) > 0 {
+		got := uint64(0)
+		for i := uint64(0); got < need && i < maxBlocks*32; i++ {
+			cand := active[sizingShuffled(i%uint64(len(active)), uint64(len(active)), seed, p.SHUFFLE_ROUND_COUNT)]
+			d := sha256.Sum256(cat(seed[:], u64(i/32)))
+			if uint64(vals[cand][2])*255 >= p.MAX_EFFECTIVE_BALANCE*uint64(d[i%32]) {
+				got++
+			}
+			blocks = i/32 + 1
+		}
+	}
+	for b := uint64(0); b < blocks+1; b++ {
+		o.sha(cat(seed[:], u64(b)))
+	}
 }
 
 // buildOracle: crypto/sha256 of every pre-image the specification hashes for this state.
@@ -451,12 +466,12 @@ func buildOracle(p Preset, slot uint64, mixes [][32]byte, vals [][]int) []pair {
 	for s := cur * p.SLOTS_PER_EPOCH; s < (cur+1)*p.SLOTS_PER_EPOCH; s++ {
 		ss := o.sha(cat(ps[:], u64(s)))
 		o.shuffleEntries(ss, p.SHUFFLE_ROUND_COUNT, nVals)
-		o.samplingBlocks(ss, p, minActiveEff(vals, cur), 1)
+		o.samplingBlocks(ss, p, vals, cur, 1)
 	}
 	for _, e := range []uint64{cur, cur + 1} {
 		ys := seed(e, 7)
 		o.shuffleEntries(ys, p.SHUFFLE_ROUND_COUNT, nVals)
-		o.samplingBlocks(ys, p, minActiveEff(vals, e), p.SYNC_COMMITTEE_SIZE)
+		o.samplingBlocks(ys, p, vals, e, p.SYNC_COMMITTEE_SIZE)
 	}
 	return o.out
 }
